@@ -55,6 +55,56 @@ pub fn c14(_args: &Args) -> Acc {
             }
         }
     }
+    // the refresh order reached through every public way of building one (constructor, struct
+    // literal, the flip helpers in both orders, from the default and from the opposite corner)
+    {
+        use mipidsi::options::{HorizontalRefreshOrder as H, RefreshOrder, VerticalRefreshOrder as V};
+        for r in 0..4u8 {
+            let (bt, rl) = (r & 1 != 0, r & 2 != 0);
+            let v = if bt { V::BottomToTop } else { V::TopToBottom };
+            let h = if rl { H::RightToLeft } else { H::LeftToRight };
+            let mut d1 = RefreshOrder::default();
+            if bt {
+                d1 = d1.flip_vertical();
+            }
+            if rl {
+                d1 = d1.flip_horizontal();
+            }
+            let mut d2 = RefreshOrder::default();
+            if rl {
+                d2 = d2.flip_horizontal();
+            }
+            if bt {
+                d2 = d2.flip_vertical();
+            }
+            // from the opposite corner: flip what must differ
+            let mut d3 = RefreshOrder::new(V::BottomToTop, H::RightToLeft);
+            if !bt {
+                d3 = d3.flip_vertical();
+            }
+            if !rl {
+                d3 = d3.flip_horizontal();
+            }
+            let built: [(&str, RefreshOrder); 6] = [
+                ("new", RefreshOrder::new(v, h)),
+                ("struct literal", RefreshOrder { vertical: v, horizontal: h }),
+                ("default + flip_vertical, flip_horizontal", d1),
+                ("default + flip_horizontal, flip_vertical", d2),
+                ("opposite corner flipped back", d3),
+                ("flipped twice", RefreshOrder::new(v, h).flip_horizontal().flip_vertical().flip_vertical().flip_horizontal()),
+            ];
+            for (how, ro) in built {
+                for (o, bgr) in [(0u8, false), (5, true)] {
+                    let want = spec::madctl(bgr, Ori(o), bt, rl);
+                    let got = byte_of(SetAddressMode::new(co(bgr), to_orientation(Ori(o)), ro));
+                    a.case(&format!("refresh-order/{}/{}/{}", r, how, o), true);
+                    if got != want {
+                        a.violate("refresh-order", r as u64, "refresh-order/encoding", format!("refresh order {} (bottom-to-top: {}, right-to-left: {}) built by `{}` -> {:#010b}, MIPI encoding is {:#010b}", r, bt, rl, how, got, want), J::obj().with("refresh", r).with("built_by", how));
+                    }
+                }
+            }
+        }
+    }
     // closure of the reachable states under the 14 setter applications
     let mut seen: BTreeSet<u8> = BTreeSet::new();
     let mut q: VecDeque<SetAddressMode> = VecDeque::new();
@@ -705,10 +755,31 @@ impl DcsCommand for UserCmd {
     }
 }
 
+/// ... and one without any data: a vendor command with constant parameters
+struct UnlockCmd;
+impl DcsCommand for UnlockCmd {
+    fn instruction(&self) -> u8 {
+        0xF0
+    }
+    fn fill_params_buf(&self, buffer: &mut [u8]) -> usize {
+        buffer[..3].copy_from_slice(&[0x5A, 0x69, 0x02]);
+        3
+    }
+}
+
 pub fn c18(args: &Args) -> Acc {
     let mut total = Acc::new();
     if args.want_stage("user-commands") {
         let mut a = Acc::new();
+        {
+            let bus = via_bus(UnlockCmd);
+            let want = vec![BusEv::Cmd(0xF0), BusEv::Data(vec![0x5A, 0x69, 0x02])];
+            a.case("user/zero-sized", true);
+            a.count("user_defined_commands_checked", 1);
+            if bus != want {
+                a.violate("user-commands", 999, "user-command/write_command[zero-sized type]", format!("bus saw {:?}, expected {:?}", bus, want), J::obj().with("command", "user-defined zero-sized DcsCommand with 3 constant parameter bytes"));
+            }
+        }
         for n in 0..=16usize {
             for variant in 0..6u8 {
                 let ins = 0xB0u8.wrapping_add(n as u8 * 3 + variant);
